@@ -1363,11 +1363,15 @@ def _stage_init(ctx):
 def _stage_raw(ctx):
     """objects holding an int where a float is declared / a signed zero, reached without validation"""
     cases = []
+    from soundevent import data
     for cls, base, field in _raw_specs():
         variants = []
+        frozen = bool(getattr(data, cls).model_config.get("frozen"))
         for num, vs in RAW_NUMS.items():
             for k, v in enumerate(vs):
                 for how in RAW_HOWS:
+                    if how == "setattr" and frozen:
+                        continue
                     o = _raw_variant(_construct(cls, base()), field, v, how)
                     variants.append({"cls": cls, "num": num, "k": k, "how": how, "tree": walk_raw(o)})
         for a in variants:
